@@ -42,7 +42,8 @@ Print Assumptions C10_step.
     (Proofs/WapiRules.v: [representable_prototype] - including: no attribute twice,
     no empty integer range -, [representable_point]; Proofs/WapiMain.v:
     [representable_call] - including: nothing is added and nothing is finalized
-    a second time after a finalize). *)
+    a second time after a finalize; a point cloud is finalized only with limits set by
+    the caller that are complete). *)
 Theorem C10_rejects : forall (gen_xml : file_meta -> res (list N)) (lib_version : xstring),
   forall st l c l' st' r, ws_inv st l -> ws_open st = true -> call_wf c ->
   wrun_spec (wapi_step gen_xml lib_version st c) l = (l', Ok (st', r)) ->
@@ -93,12 +94,16 @@ Print Assumptions C10_finalize_terminates.
     raw iterator model for point clouds, [blob_read] for blobs and image payloads).
 
     Hypotheses.  [units]: the grammar above (no abandoned sub-writer, nothing between a
-    sub-writer's finalize and the end of its borrow).  [call_ok]: arguments are values of
+    sub-writer's finalize and the end of its borrow); per point cloud session [limits_declared]:
+    the caller sets the intensity (colour) limits or the prototype declares the range - limits set
+    by the caller are complete because [finalize] returned Ok (repair e77b8fe), but the DEFAULT
+    limits of a float attribute without declared minimum / maximum are incomplete, the writer
+    accepts them and does not write them, and the reader then reports no limits where the writer
+    holds [Some {None, None}]: such a session is outside this theorem (the tie covers it).  [call_ok]: arguments are values of
     their Rust types, strings consist of characters XML can carry (no CR), limits given by
     the caller are i64 values.  Float oracle: Display gives plain text that FromStr maps
     back to the bit pattern (NaN: canonical).  [version_ok]: the version text is such a
-    string.  [pc_limits_complete]: limits are complete or absent (incomplete ones are
-    silently not written: known finding).  [pc_u64] / [im_ok]: the published offsets,
+    string.  [pc_u64] / [im_ok]: the published offsets,
     lengths and counts are u64 and the image dimensions u32 values, as their Rust types
     say (the model's N is unbounded); fewer than 65535 extensions; the XML fits the
     reader's limit [MAX_XML_SIZE]; the file is shorter than 2^64 bytes. *)
@@ -112,7 +117,6 @@ Theorem C10_accepted_reads_back :
   Forall call_ok (NewWriter guid :: tops ++ [Finalize]) ->
   wrun (writer_run fmt64 fmt32 version (NewWriter guid :: tops ++ [Finalize])) pw0 = (s, Ok (st, rs)) ->
   Forall res_ok rs ->
-  forallb pc_limits_complete (ws_pcs st) = true ->
   forallb pc_u64 (ws_pcs st) = true -> forallb im_ok (ws_imgs st) = true ->
   len (ws_exts st) < 65535 ->
   (forall xml, gen_root (fill_meta fmt64 fmt32 (ws_meta st)) = Ok xml -> len xml <= MAX_XML_SIZE) ->
